@@ -198,14 +198,23 @@ Inductive nscope := NModule | NFunc | NEval | NExec | NFuncEval | NComp | NClass
   (* natively compiled bodies: lambda (module level / inside a function), @pyscript_compile function *)
   | NLambda | NLambdaFunc | NCompiled
   (* interpreted code (module level / function) after a lambda was defined in the same global context *)
-  | NAfterLambda | NAfterLambdaFunc.
+  | NAfterLambda | NAfterLambdaFunc
+  (* source text run with EXPLICIT namespaces: exec(src, {}) / exec(src, {name: v}) / eval(src, {}) / exec(src, {}, {}) /
+     exec(src, {name: v}, {}) at module level, eval(src, {}) / exec(src, {}) inside a function.  The script's own globals are not
+     visible there; the evaluator's local table (print and the log functions) still is (ast_eval_exec_factory l.104) *)
+  | NExecG | NExecGS | NEvalG | NExecGL | NExecGLS | NFuncEvalG | NFuncExecG.
+Definition scope_explicit_ns (s : nscope) : bool :=
+  match s with NExecG | NExecGS | NEvalG | NExecGL | NExecGLS | NFuncEvalG | NFuncExecG => true | _ => false end.
 Definition scope_is_trig (s : nscope) : bool :=
   match s with NTrigState | NTrigEvent | NTrigActive | NTrigWait => true | _ => false end.
 Definition scope_is_native (s : nscope) : bool :=
   match s with NLambda | NLambdaFunc | NCompiled => true | _ => false end.
 (* the script itself declares/binds/deletes the looked-up name in that scope *)
 Definition scope_script_binds (s : nscope) : bool :=
-  match s with NGDecl | NGAssign | NGDel | NNlAssign | NNlDel | NNlNever | NClosure | NClosureDel | NLocalDel => true | _ => false end.
+  match s with
+  | NGDecl | NGAssign | NGDel | NNlAssign | NNlDel | NNlNever | NClosure | NClosureDel | NLocalDel | NExecGS | NExecGLS => true
+  | _ => false
+  end.
 Record ncase := {
   nc_name : string;
   nc_scope : nscope;
@@ -230,8 +239,12 @@ Definition scope_is_modlike (s : nscope) : bool :=
 Definition nenv_of (c : ncase) : nenv :=
   let s := nc_scope c in
   let sh := nc_shadow c in
-  {| ne_sym := match s with NNlAssign | NClosure => true | _ => sh && scope_is_modlike s end;
-     ne_global := match s with NGAssign => true | NGDel => false | _ => sh && negb (scope_is_modlike s) end;
+  {| ne_sym := match s with NNlAssign | NClosure | NExecGS => true | _ => sh && scope_is_modlike s && negb (scope_explicit_ns s) end;
+     ne_global := match s with
+                  | NGAssign | NExecGLS => true
+                  | NGDel => false
+                  | _ => sh && negb (scope_is_modlike s) && negb (scope_explicit_ns s)
+                  end;
      ne_local := negb (scope_is_trig s);
      ne_pybuiltin := nc_pybuiltin c;
      ne_gdecl := match s with NGDecl | NGAssign | NGDel => true | _ => false end;
